@@ -57,7 +57,8 @@ def _ov(extra):
 
 _KF = {1: "C19-F1", 2: "C19-F2", 3: "C19-F3", 4: "C19-F4", 5: "C19-F5", 6: "C19-F6", 7: "C19-F7", 8: "C19-F8"}
 _KS = _ov({"internal/zzverif/c19gen/ks_test.go": "c19/gen/ks_test.go", "internal/zzverif/c19gen/req_test.go": "c19/gen/req_test.go",
-           "internal/zzverif/c19gen/remote_test.go": "c19/gen/remote_test.go"})
+           "internal/zzverif/c19gen/remote_test.go": "c19/gen/remote_test.go",
+           "internal/zzverif/c19gen/watch_test.go": "c19/gen/watch_test.go"})
 
 P = {
     "id": "C19",
@@ -65,7 +66,7 @@ P = {
     "coq_targets": ["Properties/C19.vo", "Run/Eval_C19.vo"],
     "theorems_module": "Properties.C19",
     "theorems": ["C19_reload_total", "C19_reload_total_any_fixed", "C19_reload_total_guarded", "C19_reload_exit_iff_guards",
-                 "C19_find_chain_terminates", "C19_pinned_exhaustion_is_divergence", "C19_empty_store_iff", "C19_truststore_total", "C19_truststore_panic_iff",
+                 "C19_find_chain_terminates", "C19_pinned_exhaustion_is_divergence", "C19_empty_store_iff", "C19_accepted_sizes_have_jwk", "C19_size_tables_agree", "C19_size_ok_exact", "C19_truststore_total", "C19_truststore_panic_iff",
                  "C19_ruleset_total", "C19_ruleset_total_typed", "C19_ruleset_total_guarded", "C19_F3_only_ill_typed",
                  "C19_fs_total", "C19_fs_total_guarded", "C19_fs_exit_iff_guard",
                  "C19_request_panic_is_non_success", "C19_composite_extract_panic_iff",
@@ -131,8 +132,10 @@ P = {
                 "or panic); they are exercised only by the truncation / mutation sweeps",
                 "x509 chain verification (ValidateChain, pkix.ValidateCertificate), CEL compilation, the mechanism factory (prototype "
                 "lookup + WithConfig), matcher construction and Rule.Hash are oracles (ok / error / panic per call)",
-                "goroutine attribution is by reading: OnChanged runs under `go listener.OnChanged` (watcher_impl.go) and the providers' "
-                "watch loops without recover; the drivers call the same methods synchronously and catch the panic",
+                "goroutine attribution: OnChanged runs under `go listener.OnChanged` (watcher_impl.go) and the providers' watch loops "
+                "without recover (read from the source; every `go` statement of the tree is listed in the evidence). The drivers call "
+                "the same methods synchronously and catch the panic; four cases per run go end to end through the real fsnotify "
+                "watcher in a child process (file rewritten in place, process survival observed)",
                 "httpsig.NewSigner is assumed to succeed for a supported key (observed on every run)",
                 "request goroutines: the recovery middleware and the composite extractor are modelled; for remote documents and tokens "
                 "the model only says that the complete valid document is accepted and a cut / certainly invalid one never ends in "
